@@ -112,6 +112,7 @@ type World struct {
 	// AutoDeliver: subscriptions fire as soon as the invoice is settled.
 	AutoDeliver bool
 	delivered   map[string]bool
+	nsubs       int
 }
 
 func NewWorld(seed int64) *World {
@@ -648,11 +649,11 @@ var watcherSeq int64
 var watcherMu sync.Mutex
 
 func (n *Node) SubscribeInvoice(ctx context.Context, paymentHash string) (lightning.InvoiceSubscriptionClient, error) {
-	watcherMu.Lock()
-	watcherSeq++
-	name := fmt.Sprintf("W%d", watcherSeq)
-	watcherMu.Unlock()
-	name = "W:" + s8(paymentHash)
+	// stable per-world names (W:1, W:2, …) so that schedules can be replayed
+	n.W.mu.Lock()
+	n.W.nsubs++
+	name := fmt.Sprintf("W:%d", n.W.nsubs)
+	n.W.mu.Unlock()
 	// the calling goroutine is the one that will later write PAID: name it
 	n.H.Register(name)
 	s := &sub{w: n.W, hash: paymentHash, ctx: ctx, ch: make(chan struct{}), Name: name}
